@@ -58,6 +58,12 @@ enum Op {
     ExtendStrs(Vec<String>, bool),
     ShrinkTo(usize),
     ShrinkToFit,
+    /// `clone()`; true: continue with the clone (the original is parked), false: the clone is parked
+    CloneStr(bool),
+    /// continue with parked string i
+    SwapLive(usize),
+    /// drop parked string i
+    DropParked(usize),
 }
 
 impl Op {
@@ -86,6 +92,9 @@ impl Op {
             Op::ExtendStrs(..) => "extend_strs",
             Op::ShrinkTo(..) => "shrink_to",
             Op::ShrinkToFit => "shrink_to_fit",
+            Op::CloneStr(..) => "clone",
+            Op::SwapLive(..) => "swap",
+            Op::DropParked(..) => "drop_parked",
         }
     }
     fn text(&self) -> String {
@@ -113,6 +122,9 @@ impl Op {
             Op::ExtendStrs(ss, add) => format!("extend_strs {} {}", *add as u8, ss.iter().map(|x| hex(x.as_bytes())).collect::<Vec<_>>().join(" ")),
             Op::ShrinkTo(n) => format!("shrink_to {n}"),
             Op::ShrinkToFit => "shrink_to_fit".into(),
+            Op::CloneStr(swap) => format!("clone {}", *swap as u8),
+            Op::SwapLive(i) => format!("swap {i}"),
+            Op::DropParked(i) => format!("drop_parked {i}"),
         }
     }
     /// the operation exists as a `try_` / panicking pair
@@ -257,9 +269,9 @@ fn gen_range(ctx: &mut Ctx, r: &str) -> Rg {
     let b = gen_index(ctx, r);
     let (a, b) = if a > b && ctx.rng.chance(4, 5) { (b, a) } else { (a, b) };
     let k = ctx.rng.below(100);
-    let sb = if k < 75 {
+    let sb = if k < 62 {
         Bound::Included(a)
-    } else if k < 90 {
+    } else if k < 75 {
         Bound::Unbounded
     } else {
         Bound::Excluded(a.wrapping_sub(if ctx.rng.chance(1, 2) { 1 } else { 0 }))
@@ -296,7 +308,19 @@ fn gen_oracle(ctx: &mut Ctx, r: &str) -> Vec<u8> {
         .collect()
 }
 
-fn gen_op(ctx: &mut Ctx, kind: Kind, r: &str, last: bool) -> Op {
+fn gen_op(ctx: &mut Ctx, kind: Kind, r: &str, last: bool, parked: usize) -> Op {
+    if kind == Kind::Bump && !last {
+        let k = ctx.rng.below(100);
+        if k < 4 && parked < 3 {
+            return Op::CloneStr(ctx.rng.chance(1, 2));
+        }
+        if parked > 0 && k < 10 {
+            return Op::SwapLive(ctx.rng.below(parked as u64) as usize);
+        }
+        if parked > 0 && k < 12 {
+            return Op::DropParked(ctx.rng.below(parked as u64) as usize);
+        }
+    }
     if last && ctx.rng.chance(2, 3) {
         let convs: &[Conv] = match kind {
             Kind::Box => &[Conv::IntoStr],
@@ -379,7 +403,7 @@ fn predicate<'a>(oracle: &'a [u8], seen: &'a mut Vec<char>) -> impl FnMut(char) 
 }
 
 /// runs `op` on the real string; `seen` = characters handed to the retain predicate
-fn run_impl(s: &mut Option<Box<dyn StrOps + '_>>, kind: Kind, op: &Op, t: bool, keep_part: bool, probe: (u8, usize), seen: &mut Vec<char>, fin: &mut Option<Fin>) -> Obs {
+fn run_impl(s: &mut Option<Box<dyn StrOps + '_>>, kind: Kind, op: &Op, t: bool, keep_part: bool, probe: (u8, usize), seen: &mut Vec<char>, fin: &mut Option<Fin>, now: &[u8], swapped: &mut Option<Vec<u8>>) -> Obs {
     let res = catch_unwind(AssertUnwindSafe(|| -> Result<String, ()> {
         if let Op::Convert(c) = op {
             let f = s.take().unwrap().finish(*c, probe.0, probe.1);
@@ -440,6 +464,18 @@ fn run_impl(s: &mut Option<Box<dyn StrOps + '_>>, kind: Kind, op: &Op, t: bool, 
                 s.shrink_to_fit();
                 Ok(String::new())
             }
+            Op::CloneStr(swap) => {
+                let (b, cap) = s.clone_live(*swap, now.to_vec());
+                Ok(format!("{}:{cap}", hex(&b)))
+            }
+            Op::SwapLive(i) => {
+                *swapped = Some(s.swap_live(*i, now.to_vec()));
+                Ok(String::new())
+            }
+            Op::DropParked(i) => {
+                s.drop_parked(*i);
+                Ok(String::new())
+            }
             Op::Convert(_) => unreachable!(),
         }
     }));
@@ -495,19 +531,19 @@ fn run_ref(r: &mut String, op: &Op, seen: &mut Vec<char>) -> Obs {
                 String::new()
             }
             Op::Drain(rg, t) => {
-                let mut d = r.drain(*rg);
+                let mut d = r.drain(any_range(*rg));
                 cps(&take_front(&mut d, *t))
             }
             Op::ReplaceRange(rg, t) => {
-                r.replace_range(*rg, t);
+                r.replace_range(any_range(*rg), t);
                 String::new()
             }
             Op::ExtendFromWithin(rg) => {
-                r.extend_from_within(*rg);
+                r.extend_from_within(any_range(*rg));
                 String::new()
             }
             Op::SplitOff(rg) => {
-                let o: String = r.drain(*rg).collect();
+                let o: String = r.drain(any_range(*rg)).collect();
                 hex(o.as_bytes())
             }
             Op::Reserve(_) | Op::ReserveExact(_) | Op::ShrinkTo(_) | Op::ShrinkToFit => {
@@ -541,6 +577,8 @@ fn run_ref(r: &mut String, op: &Op, seen: &mut Vec<char>) -> Obs {
                 }
                 String::new()
             }
+            Op::CloneStr(_) => hex(r.clone().as_bytes()),
+            Op::SwapLive(_) | Op::DropParked(_) => String::new(),
             Op::Convert(Conv::IntoCstr) => {
                 let b = ref_cstr(r.as_bytes());
                 *r = String::from_utf8(b.clone()).unwrap();
@@ -581,8 +619,18 @@ fn step(ctx: &mut Ctx, s: &mut Option<Box<dyn StrOps + '_>>, r: &mut String, kin
     let mut seen_i = Vec::new();
     let mut seen_r = Vec::new();
     let mut fin: Option<Fin> = None;
-    let obs = run_impl(s, kind, op, t, keep_part, probe, &mut seen_i, &mut fin);
+    // range arguments: native Rust syntax where the bound pair has one, else the (Bound, Bound) tuple
+    NATIVE_RANGES.store(ctx.rng.chance(1, 2), std::sync::atomic::Ordering::Relaxed);
+    let mut swapped = None;
+    let obs = run_impl(s, kind, op, t, keep_part, probe, &mut seen_i, &mut fin, before.as_bytes(), &mut swapped);
     let mut want = run_ref(r, op, &mut seen_r);
+    if let Some(e) = swapped {
+        // the sequence continues with another live string of the arena: its contents as they were left
+        match String::from_utf8(e) {
+            Ok(x) => *r = x,
+            Err(_) => ctx.oracle(format!("INVALID-UTF8 kind={} a parked string", kind.name())),
+        }
+    }
     // a fixed string reports an allocation error instead when the result does not fit — and must be UNCHANGED then
     // (`Extend`: a sequence of pushes; what fitted before the failing one stays)
     if kind == Kind::Fixed && matches!(want, Obs::Ok(_)) {
@@ -660,7 +708,15 @@ fn step(ctx: &mut Ctx, s: &mut Option<Box<dyn StrOps + '_>>, r: &mut String, kin
         if bytes.len() > cap_after {
             ctx.oracle(format!("CAPACITY kind={} after `{optext}`: len {} > capacity {cap_after}", kind.name(), bytes.len()));
         }
-        let reshapes = matches!(op, Op::SplitOff(_) | Op::Convert(_) | Op::ShrinkTo(_) | Op::ShrinkToFit);
+        let reshapes = matches!(op, Op::SplitOff(_) | Op::Convert(_) | Op::ShrinkTo(_) | Op::ShrinkToFit | Op::CloneStr(_) | Op::SwapLive(_));
+        if let (Op::CloneStr(_), Obs::Ok(v)) = (op, &obs) {
+            // `Clone for BumpString` allocates exactly `len` bytes: that is all the clone may claim to own
+            let ccap: usize = v.rsplit(':').next().and_then(|x| x.parse().ok()).unwrap_or(usize::MAX);
+            if ccap != before.len() {
+                ctx.oracle(format!("CAPACITY kind={} `{optext}` on {:?} (capacity {cap_before}): the clone reports capacity {ccap} but owns exactly len = {} bytes", kind.name(), before, before.len()));
+            }
+            ctx.branch(if cap_before > before.len() { "clone:original-had-spare-capacity" } else { "clone:exact-capacity" });
+        }
         if let Op::ShrinkTo(_) | Op::ShrinkToFit = op {
             let floor = match op {
                 Op::ShrinkTo(n) => (*n).max(bytes.len()),
@@ -726,7 +782,7 @@ fn step(ctx: &mut Ctx, s: &mut Option<Box<dyn StrOps + '_>>, r: &mut String, kin
             ok = false;
         }
         (Obs::Ok(v), Obs::Ok(w)) => {
-            let v_cmp = if let Op::SplitOff(_) = op { v.split(':').next().unwrap_or("") } else { v.as_str() };
+            let v_cmp = if let Op::SplitOff(_) | Op::CloneStr(_) = op { v.split(':').next().unwrap_or("") } else { v.as_str() };
             if v_cmp != w {
                 ctx.oracle(format!("VALUE-MISMATCH kind={} `{optext}` on {:?} ({}): returned {v} but std gives {w}", kind.name(), before, hex(before.as_bytes())));
                 ok = false;
@@ -761,7 +817,7 @@ fn step(ctx: &mut Ctx, s: &mut Option<Box<dyn StrOps + '_>>, r: &mut String, kin
         }
         ctx.branch("probe:after-conversion");
     } else if let Some(st) = s.as_mut() {
-        let always = matches!(op, Op::ShrinkTo(_) | Op::ShrinkToFit | Op::SplitOff(_));
+        let always = matches!(op, Op::ShrinkTo(_) | Op::ShrinkToFit | Op::SplitOff(_) | Op::CloneStr(_) | Op::DropParked(_));
         if (always || ctx.rng.chance(1, 8)) && st.probe(probe.0, probe.1) {
             ctx.branch("probe:after-op");
             let re = st.bytes();
@@ -928,7 +984,8 @@ fn sequence(ctx: &mut Ctx, n: u64, nops: u64) {
         new_line(ctx, kind, cap, &text, &*s);
         let mut s = Some(s);
         for i in 0..nops {
-            let op = gen_op(ctx, kind, &r, i + 1 == nops);
+            let parked = s.as_ref().map_or(0, |x| x.parked());
+            let op = gen_op(ctx, kind, &r, i + 1 == nops, parked);
             if !step(ctx, &mut s, &mut r, kind, &op) {
                 break;
             }
@@ -960,6 +1017,13 @@ fn sweep(ctx: &mut Ctx, n: u64) {
         ops.push(Op::Truncate(i));
         ops.push(Op::ShrinkTo(i));
         ops.push(Op::ShrinkTo(len + 2 + i));
+        // excluded START bounds (only a `(Bound, Bound)` tuple can express them), incl. Excluded(usize::MAX), Excluded(len)
+        for rg in [(Bound::Excluded(i.wrapping_sub(1)), Bound::Unbounded), (Bound::Excluded(i), Bound::Unbounded), (Bound::Excluded(i.wrapping_sub(1)), Bound::Included(i)), (Bound::Excluded(i), Bound::Excluded(len)), (Bound::Included(i), Bound::Included(usize::MAX)), (Bound::Unbounded, Bound::Included(i))] {
+            ops.push(Op::SplitOff(rg));
+            ops.push(Op::Drain(rg, usize::MAX));
+            ops.push(Op::ReplaceRange(rg, repl.clone()));
+            ops.push(Op::ExtendFromWithin(rg));
+        }
         for j in i.saturating_sub(1)..=len + 1 {
             let rg = (Bound::Included(i), Bound::Excluded(j));
             ops.push(Op::SplitOff(rg));
